@@ -1,5 +1,7 @@
 """per-property claims (source of MANIFEST.json; see tools_gen_manifest.py)"""
 CHECKS = {
+ 'C07': dict(text='static', ref='DESIGN.md 5 C07', note='n', technique='static analysis'),
+ 'C06': dict(text='static', ref='DESIGN.md 5 C06', note='n', technique='static analysis'),
  'C20': dict(text='static', ref='DESIGN.md 5 C20', note='n', technique='static analysis'),
  'C05': dict(text='static', ref='DESIGN.md 5 C05', note='n', technique='static analysis'),
  'C04': dict(text='static', ref='DESIGN.md 5 C04', note='n', technique='static analysis'),
@@ -13,4 +15,4 @@ CHECKS = {
    technique='static analysis: symbolic path tables + canonical terms compared with reference decision tables'),
 }
 NOT_APPLICABLE = {p: 'check under construction in this round (see DESIGN.md section 5); not claimed until its rules exist'
-                  for p in ['C06','C07','C08','C10','C11','C12','C13','C14','C15','C16','C17','C18','C19']}
+                  for p in ['C08','C10','C11','C12','C13','C14','C15','C16','C17','C18','C19']}
